@@ -26,7 +26,7 @@ import (
 // an exported constructor.
 type ClientStream[Req any] struct {
 	conn StreamingHandlerConn
-	msg  Req
+	msg  *Req
 	err  error
 }
 
@@ -44,15 +44,20 @@ func (c *ClientStream[Req]) Receive() bool {
 	if c.err != nil {
 		return false
 	}
-	c.err = c.conn.Receive(&c.msg)
+	// Decode into a new message every time: a codec may merge into its target
+	// rather than reset it, and a message must not inherit anything from the
+	// ones before it.
+	c.msg = new(Req)
+	c.err = c.conn.Receive(c.msg)
 	return c.err == nil
 }
 
-// Msg returns the most recent message unmarshaled by a call to Receive. The
-// returned message points to data that will be overwritten by the next call to
-// Receive.
+// Msg returns the most recent message unmarshaled by a call to Receive.
 func (c *ClientStream[Req]) Msg() *Req {
-	return &c.msg
+	if c.msg == nil {
+		c.msg = new(Req)
+	}
+	return c.msg
 }
 
 // Err returns the first non-EOF error that was encountered by Receive.
